@@ -504,8 +504,33 @@ def _assembly_centers(dim, n):
 
 
 def _assembly_base(Vm, dim):
-    """the pair loop is inherited: in 4-D from the rotation-grid class (whatever it overrides takes part), else from the abstract class"""
-    return Vm.RotobjVoronoi if dim == 4 else Vm.AbstractVoronoi
+    """the pair loop is inherited from the rotation-grid class (whatever it overrides takes part)"""
+    return Vm.RotobjVoronoi
+
+
+def _assembly_object(Vm, V, centers, regions):
+    """an instance of V (a subclass of RotobjVoronoi with stand-in geometry callbacks) built by the REAL constructor chain: Qhull's
+    SphericalVoronoi is replaced by a stand-in that hands out the centres, generic distinct vertices and the region lists of the shape"""
+    nv = 1 + max([k for reg in regions for k in reg] + [0])
+
+    class SV(fgstub.SVStub):
+        def __init__(self, points, radius=1, center=None, threshold=1e-06):
+            super().__init__(points, radius=radius, center=center, threshold=threshold)
+            rng = np.random.default_rng(991 + nv)
+            v = rng.normal(size=(nv, self.points.shape[1]))
+            self.vertices = v / np.linalg.norm(v, axis=1)[:, None]
+            self.regions = [list(r_) for r_ in regions]
+    try:
+        with bound(Vm, SphericalVoronoi=SV, np=np, print=noprint):
+            return V(centers.copy(), using_detailed_grid=False)
+    except Exception as e:  # noqa: BLE001
+        fgstub.BYPASSED.append(f"RotobjVoronoi.__init__ (assembly): {type(e).__name__}: {e}")
+        v = object.__new__(V)
+        v.reduced_regions = regions
+        v.regions = regions
+        v.centers = centers.copy()
+        v.my_array = centers.copy()
+        return v
 
 
 def run_assembly(shape):
@@ -523,15 +548,6 @@ def run_assembly(shape):
     eng.assume_global(*[v > 0 for v in list(bv.values()) + list(dv.values())])
 
     class V(_assembly_base(Vm, dim)):
-        def __init__(self):
-            self.reduced_regions = regions
-            self.regions = regions
-            self.centers = centers.copy()
-            self.my_array = centers.copy()
-
-        def _create_centers_vertices_regions(self):
-            return None
-
         def _calculate_borders(self, i, j):
             return SR(bv[(min(i, j), max(i, j))])
 
@@ -540,14 +556,15 @@ def run_assembly(shape):
 
     def body():
         with bound(Vm, coo_array=sp.coo_array, print=noprint):
-            v = V()
+            v = _assembly_object(Vm, V, centers, regions)
             return {p: v._calculate_N_N_array(sel_property=p) for p in ("adjacency", "border_len", "center_distances")}
 
     adj = {(i, j): len(set(regions[i]) & set(regions[j])) >= dim - 1 for i in range(n) for j in range(i + 1, n)}
     for path in eng.explore(body):
         acc.begin(prover, path)
         if path.kind == "exc":
-            bypass_guard(path.value)
+            if fgstub.BYPASSED:
+                bypass_guard(path.value)
             acc.structural("no_exception", False, detail=repr(path.value) + (path.tb or "")[-500:], cex={"kind": "exception", "exc": type(path.value).__name__})
             continue
         if acc.reachable is not True:
@@ -578,21 +595,12 @@ def replay_assembly(cex):
     centers = _assembly_centers(dim, n)
 
     class V(_assembly_base(Vm, dim)):
-        def __init__(self):
-            self.reduced_regions = regions
-            self.regions = regions
-            self.centers = centers.copy()
-            self.my_array = centers.copy()
-
-        def _create_centers_vertices_regions(self):
-            return None
-
         def _calculate_borders(self, i, j):
             return 1.0 + 0.1 * min(i, j) + 0.01 * max(i, j)
 
         def _calculate_center_distances(self, i, j):
             return 2.0 + 0.1 * min(i, j) + 0.01 * max(i, j)
-    v = V()
+    v = _assembly_object(Vm, V, centers, regions)
     bad = []
     try:
         mats = {p: v._calculate_N_N_array(sel_property=p) for p in ("adjacency", "border_len", "center_distances")}
